@@ -9,6 +9,9 @@ key registered, every registered path the path of a leaf).
 namespace I18nVerif.PipeInv
 open I18nVerif Str
 
+/-! Helper lemmas live in the namespace `I18nVerif.PipeInv.PP` (no clashes with the other `Pipe*` files). -/
+namespace PP
+
 /-! ### `Raw` of the parser output -/
 
 theorem RawK_iff : ∀ (m : List (Str × PV)), RawK m = true ↔ ∀ kv ∈ m, Raw kv.2 = true
@@ -164,9 +167,14 @@ theorem newF_raw : ∀ (fuel : Nat), RawRec (Parse.newF fuel) := by
         · rename_i r hf; subst h; exact findVariable_raw ih hf
         · simp only [Res.ok.injEq] at h; subst h; simp [Raw]
 
+end PP
+open PP
+
 /-- parser output: no subkeys, no resolved foreign key anywhere -/
 theorem parse_new_raw (s : Str) (v : PV) (h : Parse.new s = .ok v) : Raw v = true :=
   newF_raw _ s v h
+
+namespace PP
 
 /-! ### trees by membership -/
 
@@ -356,6 +364,9 @@ theorem value_ok : ∀ (fuel : Nat) (top : Str) (inRange : Bool) (key : Str) (j 
                    rw [← hq.2]
                    exact hp _ _ _ h3)
 
+end PP
+open PP
+
 /-- a decoded locale: named after the locale, key maps sorted at every depth, every leaf `Raw` -/
 theorem locale_ok (name : Str) (j : J) (l : Loc) (h : Decode.locale name j = .ok l) :
     l.name = name ∧ SortedTree l.keys ∧ TreeK (fun _ v => Raw v = true) [] l.keys := by
@@ -382,6 +393,8 @@ theorem locale_ok (name : Str) (j : J) (l : Loc) (h : Decode.locale name j = .ok
     · simp at h
     · simp at h
   · simp at h
+
+namespace PP
 
 /-! ### `decodeNs`, `decodeAll` -/
 
@@ -485,6 +498,9 @@ theorem decodeAll_np (inp : Pipeline.Input) (s : String) : ∀ (keys : List (Opt
         simp only [Res.panic.injEq] at h; subst h
         exact ih hp
 
+end PP
+open PP
+
 /-- decoding never panics -/
 theorem parseRaw_no_panic (inp : Pipeline.Input) (s : String) : Pipeline.parseRaw inp ≠ .panic s := by
   intro h
@@ -494,6 +510,8 @@ theorem parseRaw_no_panic (inp : Pipeline.Input) (s : String) : Pipeline.parseRa
   · simp at h
   · rename_i p hp; exact decodeAll_np inp p _ hp
   · simp at h
+
+namespace PP
 
 /-! ### `insertSorted`: the order of the `BTreeSet` is total, so nothing is lost -/
 
@@ -743,5 +761,63 @@ theorem fkPathsOf_sound (locale : Str) : ∀ (fuel : Nat) (path : KeyPath) (keys
               · simp only [hget]; exact hl
               · simp
       | _ => simp [isGroup] at hg
+
+end PP
+open PP
+
+/-! ### the invariant after `parseRaw` -/
+
+structure ParsedOK (inp : Pipeline.Input) (w : World) (paths : List (Str × KeyPath)) : Prop where
+  namespaced : w.namespaced = inp.cfg.namespaces.isSome
+  nsKeys : w.nss.map NS.key = (match inp.cfg.namespaces with | some l => l.map some | none => [none])
+  names : ∀ ns ∈ w.nss, ns.locales.map Loc.name = inp.cfg.locales
+  sorted : ∀ ns ∈ w.nss, ∀ l ∈ ns.locales, SortedTree l.keys
+  raw : ∀ ns ∈ w.nss, ∀ l ∈ ns.locales, TreeK (fun _ v => Raw v = true) [] l.keys
+  /-- every leaf in which `hasFK` sees a foreign key is registered (groups nested deeper than the
+      fuel of `fkPathsOf` excepted) -/
+  registered : ∀ ns ∈ w.nss, ∀ l ∈ ns.locales, gDepthK l.keys < 1000000 →
+      TreeK (fun q v => Foreign.hasFK 1000000 v = true → (l.name, (⟨ns.key, q⟩ : KeyPath)) ∈ paths) [] l.keys
+  /-- every registered path is the path of a leaf of the world -/
+  sound : ∀ x ∈ paths, ∃ ns ∈ w.nss, ∃ l ∈ ns.locales, l.name = x.1 ∧ x.2.ns = ns.key ∧
+      ∃ v, World.locGet l.keys x.2.path = .ok (some v) ∧ isGroup v = false
+
+theorem parseRaw_ok (inp : Pipeline.Input) (w : World) (paths : List (Str × KeyPath))
+    (h : Pipeline.parseRaw inp = .ok (w, paths)) : ParsedOK inp w paths := by
+  unfold Pipeline.parseRaw at h
+  simp only at h
+  split at h
+  · simp at h
+  · simp at h
+  rename_i nss hnss
+  simp only [Res.ok.injEq, Prod.mk.injEq] at h
+  obtain ⟨hw, hp⟩ := h
+  subst hw
+  have hall := decodeAll_ok inp _ nss hnss
+  have hloc : ∀ ns ∈ nss, ∀ l ∈ ns.locales, ∃ name j, Decode.locale name j = .ok l :=
+    fun ns hns l hl => (decodeNs_ok inp ns.key _ _ (hall.2 ns hns)).2 l hl
+  have hmem := fun x => mem_paths 1000000 nss x
+  rw [hp] at hmem
+  refine ⟨rfl, hall.1, ?_, ?_, ?_, ?_, ?_⟩
+  · intro ns hns
+    exact (decodeNs_ok inp ns.key _ _ (hall.2 ns hns)).1
+  · intro ns hns l hl
+    obtain ⟨name, j, hj⟩ := hloc ns hns l hl
+    exact (locale_ok name j l hj).2.1
+  · intro ns hns l hl
+    obtain ⟨name, j, hj⟩ := hloc ns hns l hl
+    exact (locale_ok name j l hj).2.2
+  · intro ns hns l hl hd
+    obtain ⟨name, j, hj⟩ := hloc ns hns l hl
+    exact fkPathsOf_complete l.name _ paths 1000000 ⟨ns.key, []⟩ [] l.keys hd (locale_ok name j l hj).2.2
+      (fun x hx => (hmem x).mpr ⟨ns, hns, l, hl, hx⟩)
+  · intro x hx
+    obtain ⟨ns, hns, l, hl, hx⟩ := (hmem x).mp hx
+    obtain ⟨name, j, hj⟩ := hloc ns hns l hl
+    have hs := (locale_ok name j l hj).2.1
+    obtain ⟨q, v, hxe, hg, hv⟩ := fkPathsOf_sound l.name 1000000 ⟨ns.key, []⟩ l.keys hs.1 hs.2 x hx
+    refine ⟨ns, hns, l, hl, ?_, ?_, v, ?_, hv⟩
+    · rw [hxe]
+    · rw [hxe]
+    · rw [hxe]; simpa using hg
 
 end I18nVerif.PipeInv
